@@ -19,6 +19,7 @@ func init() {
 			"PV-ALIAS no unsafe.String",
 			"PV-WHOLE SetAttrs visits every attribute; the limit counts kept entries",
 			"a listed container is selected once; openLog context",
+			"PV-ROLE openLog since/until spelling; PV-ALIAS label values shared with the container's resource attributes are never written in place",
 		},
 		NotDecided: []string{"terminal behaviour", "isatty / NO_COLOR detection"},
 		Rules: func(r *Run) {
@@ -38,6 +39,8 @@ func init() {
 			ruleLimit(r)
 			ruleFetchContainers(r)
 			ruleOpenLogContext(r)
+			ruleOpenLog(r)                                                   // since/until as the daemon reads them: whole unix seconds, base 10
+			ruleNoInPlaceValueMutation(r, []string{enginePkg, metricPkg}, 2) // a container label rewritten in place changes the container an entry is rendered under
 		},
 	})
 }
